@@ -1,7 +1,7 @@
 """Development helper: store confirmed mutants under /verif/seeded/<id>/ and (re)compute which checks detect them.
 
 usage: record_seeded.py add <Cxx> <outdir-name> <round-tag> <confirm-log> <first-sight-log>
-       record_seeded.py refresh            (re-run every kept patch against all checks, update meta.json)
+       record_seeded.py refresh [glob]     (re-run every kept patch [matching the glob] against all checks, update meta.json)
 """
 import json, os, re, shutil, subprocess, sys, glob
 
@@ -78,9 +78,9 @@ def _detect_overlay(args):
     return patch, fires, errs
 
 
-def refresh():
+def refresh(pattern="*"):
     import multiprocessing as mp
-    metas = sorted(glob.glob("/verif/seeded/*/meta.json"))
+    metas = sorted(glob.glob(f"/verif/seeded/{pattern}/meta.json"))
     jobs = [(os.path.join(os.path.dirname(d), "patch.diff"),) for d in metas]
     with mp.get_context("fork").Pool(8, maxtasksperchild=4) as pool:
         res = pool.map_async(_detect_overlay, jobs, chunksize=1).get(timeout=3600)
@@ -96,4 +96,4 @@ def refresh():
 if sys.argv[1] == "add":
     add(*sys.argv[2:7])
 else:
-    refresh()
+    refresh(*sys.argv[2:3])
